@@ -31,14 +31,27 @@ theorem cleanC_of_ge {c : Char} (h : 32 ≤ c.toNat) : cleanC c := by
 theorem idContA_clean {c : Char} (h : idContA c = true) : cleanC c := by
   constructor <;> (rintro rfl; revert h; decide)
 
-theorem word_clean {w : List Char} (h : isWord w = true) : Clean w := by
+theorem idCont_clean (X : Ora) {c : Char} (h : idCont X c = true) : cleanC c := by
+  by_cases hc : c.toNat < 128
+  · rw [idCont_ascii X c hc] at h; exact idContA_clean h
+  · constructor <;> (rintro rfl; exact hc (by decide))
+
+theorem idStart_clean (X : Ora) {c : Char} (h : idStart X c = true) : cleanC c := by
+  by_cases hc : c.toNat < 128
+  · rw [idStart_ascii X c hc] at h; exact idContA_clean (by simp [idContA, h])
+  · constructor <;> (rintro rfl; exact hc (by decide))
+
+theorem wordX_clean (X : Ora) {w : List Char} (h : isWordX X w = true) : Clean w := by
   match w, h with
   | c :: r, h =>
-    simp only [isWord, Bool.and_eq_true, List.all_eq_true] at h
+    simp only [isWordX, Bool.and_eq_true, List.all_eq_true] at h
     intro d hd
     rcases List.mem_cons.1 hd with rfl | hd
-    · exact idContA_clean (by simp [idContA, h.1.1])
-    · exact idContA_clean (h.1.2 d hd)
+    · exact idStart_clean X h.1
+    · exact idCont_clean X (h.2 d hd)
+
+theorem word_clean {w : List Char} (h : isWord w = true) : Clean w :=
+  wordX_clean Ora.ascii (isWordX_of_ascii Ora.ascii h)
 
 theorem numNext_clean {p p' : NumPhase} {c : Char} (h : numNext p c = .cont p') : cleanC c := by
   constructor <;> (rintro rfl; cases p <;> cases p' <;> revert h <;> decide)
@@ -87,15 +100,15 @@ theorem clean_lit {l : List Char} (h : l.all (fun c => decide (cleanC c)) = true
   have := List.all_eq_true.1 h c hc
   simpa using this
 
-theorem asciiIdent_clean {n : List Char} (h : asciiIdent n = true) : Clean n :=
-  word_clean (asciiIdent_word h).1
+theorem asciiIdent_clean (X : Ora) {n : List Char} (h : identOk X n = true) : Clean n :=
+  wordX_clean X (identOk_word X h).1
 
 mutual
-theorem render_clean (pr : Char → Bool) : ∀ (e : PyExpr), wf e = true → Clean (render pr e)
+theorem render_clean (X : Ora) (pr : Char → Bool) : ∀ (e : PyExpr), wf X e = true → Clean (render pr e)
   | .name n, h => by
     simp only [wf] at h
     simp only [render]
-    exact asciiIdent_clean h
+    exact asciiIdent_clean X h
   | .const w, h => by
     simp only [wf, Bool.and_eq_true] at h
     simp only [render]
@@ -114,56 +127,56 @@ theorem render_clean (pr : Char → Bool) : ∀ (e : PyExpr), wf e = true → Cl
   | .call f kws, h => by
     simp only [wf, Bool.and_eq_true] at h
     simp only [render]
-    exact clean_append (asciiIdent_clean h.1.1) (clean_cons ⟨by decide, by decide⟩
-      (clean_append (renderKws_clean pr kws h.2 true) (clean_lit (by decide))))
+    exact clean_append (asciiIdent_clean X h.1.1) (clean_cons ⟨by decide, by decide⟩
+      (clean_append (renderKws_clean X pr kws h.2 true) (clean_lit (by decide))))
   | .list xs, h => by
     simp only [wf] at h
     simp only [render]
-    exact clean_cons ⟨by decide, by decide⟩ (clean_append (renderL_clean pr xs h true) (clean_lit (by decide)))
+    exact clean_cons ⟨by decide, by decide⟩ (clean_append (renderL_clean X pr xs h true) (clean_lit (by decide)))
   | .dict kvs, h => by
     simp only [wf] at h
     simp only [render]
-    exact clean_cons ⟨by decide, by decide⟩ (clean_append (renderKVs_clean pr kvs h true) (clean_lit (by decide)))
+    exact clean_cons ⟨by decide, by decide⟩ (clean_append (renderKVs_clean X pr kvs h true) (clean_lit (by decide)))
   | .lam b, h => by
     simp only [wf] at h
     simp only [render]
     exact clean_append (clean_lit (by decide)) (clean_cons ⟨by decide, by decide⟩
-      (clean_cons ⟨by decide, by decide⟩ (render_clean pr b h)))
+      (clean_cons ⟨by decide, by decide⟩ (render_clean X pr b h)))
   | .bad, h => by simp [wf] at h
-theorem renderL_clean (pr : Char → Bool) : ∀ (xs : List PyExpr), wfL xs = true → ∀ first, Clean (renderL pr first xs)
+theorem renderL_clean (X : Ora) (pr : Char → Bool) : ∀ (xs : List PyExpr), wfL X xs = true → ∀ first, Clean (renderL pr first xs)
   | [], _, _ => clean_nil
   | x :: xs, h, first => by
     simp only [wfL, Bool.and_eq_true] at h
     simp only [renderL]
-    refine clean_append ?_ (clean_append (render_clean pr x h.1) (renderL_clean pr xs h.2 false))
+    refine clean_append ?_ (clean_append (render_clean X pr x h.1) (renderL_clean X pr xs h.2 false))
     cases first
     · exact clean_lit (by decide)
     · exact clean_nil
-theorem renderKws_clean (pr : Char → Bool) : ∀ (kws : List (List Char × PyExpr)), wfKws kws = true →
+theorem renderKws_clean (X : Ora) (pr : Char → Bool) : ∀ (kws : List (List Char × PyExpr)), wfKws X kws = true →
     ∀ first, Clean (renderKws pr first kws)
   | [], _, _ => clean_nil
   | (k, v) :: r, h, first => by
     simp only [wfKws, Bool.and_eq_true] at h
     simp only [renderKws]
-    refine clean_append ?_ (clean_append (word_clean (targetName_word h.1.1).1)
-      (clean_cons ⟨by decide, by decide⟩ (clean_append (render_clean pr v h.1.2) (renderKws_clean pr r h.2 false))))
+    refine clean_append ?_ (clean_append (wordX_clean X (targetName_word X h.1.1).1)
+      (clean_cons ⟨by decide, by decide⟩ (clean_append (render_clean X pr v h.1.2) (renderKws_clean X pr r h.2 false))))
     cases first
     · exact clean_lit (by decide)
     · exact clean_nil
-theorem renderKVs_clean (pr : Char → Bool) : ∀ (kvs : List (PyExpr × PyExpr)), wfKVs kvs = true →
+theorem renderKVs_clean (X : Ora) (pr : Char → Bool) : ∀ (kvs : List (PyExpr × PyExpr)), wfKVs X kvs = true →
     ∀ first, Clean (renderKVs pr first kvs)
   | [], _, _ => clean_nil
   | (k, v) :: r, h, first => by
     simp only [wfKVs, Bool.and_eq_true] at h
     simp only [renderKVs]
-    refine clean_append ?_ (clean_append (render_clean pr k h.1.1) (clean_cons ⟨by decide, by decide⟩
-      (clean_cons ⟨by decide, by decide⟩ (clean_append (render_clean pr v h.1.2) (renderKVs_clean pr r h.2 false)))))
+    refine clean_append ?_ (clean_append (render_clean X pr k h.1.1) (clean_cons ⟨by decide, by decide⟩
+      (clean_cons ⟨by decide, by decide⟩ (clean_append (render_clean X pr v h.1.2) (renderKVs_clean X pr r h.2 false)))))
     cases first
     · exact clean_lit (by decide)
     · exact clean_nil
 end
 
-theorem renderItem_clean (pr : Char → Bool) (it : Item) (h : wfItem it = true) : Clean (renderItem pr it) := by
+theorem renderItem_clean (X : Ora) (pr : Char → Bool) (it : Item) (h : wfItem X it = true) : Clean (renderItem pr it) := by
   have hi : Clean indent4 := clean_lit (by decide)
   cases it with
   | blank => exact clean_nil
@@ -172,47 +185,47 @@ theorem renderItem_clean (pr : Char → Bool) (it : Item) (h : wfItem it = true)
     exact clean_append hi (clean_append (doc_clean d) (clean_lit (by decide)))
   | ann n e =>
     simp only [wfItem, Bool.and_eq_true] at h
-    exact clean_append hi (clean_append (word_clean (targetName_word h.1).1)
-      (clean_cons ⟨by decide, by decide⟩ (clean_cons ⟨by decide, by decide⟩ (render_clean pr e h.2))))
+    exact clean_append hi (clean_append (wordX_clean X (targetName_word X h.1).1)
+      (clean_cons ⟨by decide, by decide⟩ (clean_cons ⟨by decide, by decide⟩ (render_clean X pr e h.2))))
   | assign n e =>
     simp only [wfItem, Bool.and_eq_true] at h
-    exact clean_append hi (clean_append (word_clean (targetName_word h.1).1)
+    exact clean_append hi (clean_append (wordX_clean X (targetName_word X h.1).1)
       (clean_cons ⟨by decide, by decide⟩ (clean_cons ⟨by decide, by decide⟩ (clean_cons ⟨by decide, by decide⟩
-        (render_clean pr e h.2)))))
+        (render_clean X pr e h.2)))))
 
-theorem renderItems_clean (pr : Char → Bool) : ∀ (items : List Item), items.all wfItem = true →
+theorem renderItems_clean (X : Ora) (pr : Char → Bool) : ∀ (items : List Item), items.all (wfItem X) = true →
     Clean (renderItems pr items)
   | [], _ => clean_nil
   | it :: r, h => by
     simp only [List.all_cons, Bool.and_eq_true] at h
-    exact clean_cons ⟨by decide, by decide⟩ (clean_append (renderItem_clean pr it h.1) (renderItems_clean pr r h.2))
+    exact clean_cons ⟨by decide, by decide⟩ (clean_append (renderItem_clean X pr it h.1) (renderItems_clean X pr r h.2))
 
-theorem classText_clean (O : EOra) (c : ClassSrc) (h : classOk O c = true) :
+theorem classText_clean (X : Ora) (O : EOra) (c : ClassSrc) (h : classOk X O c = true) :
     Clean (classText O c.name c.desc c.schema) := by
   simp only [classOk, Bool.and_eq_true] at h
   simp only [classText, classRender, headerText]
   exact clean_append (clean_append (clean_lit (by decide)) (clean_cons ⟨by decide, by decide⟩
-    (clean_append (asciiIdent_clean h.1.1) (clean_lit (by decide))))) (renderItems_clean O.pr _ h.1.2)
+    (clean_append (asciiIdent_clean X h.1.1) (clean_lit (by decide))))) (renderItems_clean X O.pr _ h.1.2)
 
-theorem joinClasses_clean (O : EOra) : ∀ (defs : List ClassSrc), (∀ c ∈ defs, classOk O c = true) →
+theorem joinClasses_clean (X : Ora) (O : EOra) : ∀ (defs : List ClassSrc), (∀ c ∈ defs, classOk X O c = true) →
     Clean (joinClasses O defs)
   | [], _ => clean_nil
-  | [c], h => by simpa [joinClasses] using classText_clean O c (h c (by simp))
+  | [c], h => by simpa [joinClasses] using classText_clean X O c (h c (by simp))
   | c :: c' :: r, h => by
     simp only [joinClasses]
-    exact clean_append (classText_clean O c (h c (by simp))) (clean_append (clean_lit (by decide))
-      (joinClasses_clean O (c' :: r) (fun x hx => h x (by simp [hx]))))
+    exact clean_append (classText_clean X O c (h c (by simp))) (clean_append (clean_lit (by decide))
+      (joinClasses_clean X O (c' :: r) (fun x hx => h x (by simp [hx]))))
 
-theorem moduleText_clean (O : EOra) (write : Bool) (defs : List ClassSrc) (main : ClassSrc)
-    (hd : ∀ c ∈ defs, classOk O c = true) (hm : classOk O main = true) :
+theorem moduleText_clean (X : Ora) (O : EOra) (write : Bool) (defs : List ClassSrc) (main : ClassSrc)
+    (hd : ∀ c ∈ defs, classOk X O c = true) (hm : classOk X O main = true) :
     textClean (moduleText O write defs main) = true := by
   have hc : Clean (moduleText O write defs main) := by
     simp only [moduleText]
     refine clean_append (clean_lit (by decide)) (clean_append (clean_lit (by decide)) (clean_append ?_
-      (clean_append (classText_clean O main hm) (clean_lit (by decide)))))
+      (clean_append (classText_clean X O main hm) (clean_lit (by decide)))))
     split
     · exact clean_nil
-    · refine clean_append (joinClasses_clean O defs hd) ?_
+    · refine clean_append (joinClasses_clean X O defs hd) ?_
       cases write <;> exact clean_lit (by decide)
   simp only [textClean, Bool.and_eq_true, Bool.not_eq_true', List.contains_eq_mem, decide_eq_false_iff_not]
   exact ⟨fun h => (hc _ h).1 rfl, fun h => (hc _ h).2 rfl⟩
